@@ -91,9 +91,10 @@ class Scene:
         from . import absint
 
         absint.INTEGER_ATOMS.update({f"{name}.s", f"{name}.e"})
+        thin = "PerfectlyMatchedLayer" not in qual  # walls / periodic faces are one cell thick
         for a in range(3):
             if a == axis:
-                gst.append((Rat.atom(f"{name}.s"), Rat.atom(f"{name}.e")))
+                gst.append((Rat.atom(f"{name}.s"), Rat.atom(f"{name}.s") + 1 if thin else Rat.atom(f"{name}.e")))
             else:
                 gst.append((lo[a], hi[a]))
         attrs = dict(axis=axis, direction=direction, name=name, _grid_slice_tuple=tuple(gst), _is_symmetry_wall=False)
